@@ -70,6 +70,9 @@ def _join_meet_duality(
     if len(args) < 2:
         raise ValueError(f"Expected at least 2 arguments, got {len(args)}.")
 
+    # tensor diagrams identify their nodes by identity, the same object can be passed more than once
+    args = tuple(o.copy() if any(o is p for p in args[:i]) else o for i, o in enumerate(args))
+
     n = args[0].dim + 1
 
     # all arguments are 1-tensors, i.e. points or hypersurfaces (=lines in 2D)
